@@ -284,6 +284,10 @@ def fam_events(fam):
         evs.append(("hash", n, None))
         evs.append(("verify", n, None))
         evs.append(("set_backend", n, "default"))
+        if HS.base_name(n) in ("bcrypt", "bcrypt_sha256") and n == FAMILIES[fam][0]:
+            # a backend the host does NOT offer (bcrypt's 'builtin' with its environment switch off): the request
+            # must be refused with MissingBackendError and leave everything as it was
+            evs.append(("set_backend_refused", n, "builtin"))
     return evs
 
 
@@ -338,6 +342,37 @@ def apply_event(fam, ev):
                     pass
                 else:
                     out.append((f"C03|{n}|set_backend_raises:{b}:{type(e).__name__}", f"set_backend({b!r}) raised {e!r} (host supports it: {sup})"))
+        elif kind == "set_backend_refused":
+            import os
+
+            from passlib import exc
+
+            saved = os.environ.pop("PASSLIB_BUILTIN_BCRYPT", None)
+            try:
+                if before and dict(before).get(n) == b:
+                    return out  # already active: nothing is loaded, nothing to refuse
+                try:
+                    H.set_backend(b)
+                    out.append((f"C03|{n}|unavailable_backend_accepted:{b}", f"set_backend({b!r}) succeeded although the backend is switched off on this host"))
+                except exc.MissingBackendError:
+                    pass
+                except Exception as e:  # noqa: BLE001
+                    out.append((f"C03|{n}|set_backend_raises:{b}:{type(e).__name__}", f"set_backend({b!r}) of an unavailable backend raised {e!r}, expected MissingBackendError"))
+            finally:
+                if saved is not None:
+                    os.environ["PASSLIB_BUILTIN_BCRYPT"] = saved
+            after = state_vector(fam)
+            if after != before:
+                out.append((f"C03|{n}|refused_set_backend_mutates:{b}", f"the refused set_backend({b!r}) changed the backend state {before!r} -> {after!r}"))
+            # the hasher must still work exactly as before
+            for n2, want in ref.items():
+                H2 = HS.handler(n2)
+                try:
+                    got = H2.using(**fixed_table(fam)[n2]).hash(PW)
+                    if got != want:
+                        out.append((f"C03|{n2}|digest_changed:after_refused_set_backend", f"after a refused set_backend({b!r}) on {n}: {n2} gives {got!r}, reference {want!r}"))
+                except Exception as e:  # noqa: BLE001
+                    out.append((f"C03|{n2}|unusable_after_refused_set_backend:{type(e).__name__}", f"after a refused {n}.set_backend({b!r}) (MissingBackendError), {n2}.hash() raises {e!r} while get_backend() reports {active_backend(n2)!r}"))
         elif kind == "has_backend":
             sup = host_supports(n, b)
             try:
